@@ -53,8 +53,32 @@ try:
     meta["confirmation"]["demo_output_with_change"] = o1[-600:]
     shutil.rmtree(ddir)
     e2 = dict(env, VERIF_REPO=wt)
+    # packages whose own files or transitive dependencies the patch touches (tests elsewhere cannot change)
+    changed = set()
+    for l in open(patch):
+        if l.startswith("+++ b/") or l.startswith("--- a/"):
+            changed.add(os.path.dirname(l[6:].strip()))
+    mod = "github.com/parquet-go/parquet-go"
+    chpk = {mod + ("/" + d if d else "") for d in changed}
+    rcl, ol = sh("go list -test -deps -f '{{.ImportPath}} {{join .Deps \",\"}}' ./... 2>/dev/null", cwd=wt)
+    aff = set()
+    for l in ol.splitlines():
+        parts = l.split(" ", 1)
+        name = parts[0].split(" ")[0]
+        deps = set(parts[1].split(",")) if len(parts) > 1 else set()
+        base = name.split(" [")[0].replace(".test", "").replace("_test", "")
+        if base.startswith(mod) and (base in chpk or deps & chpk):
+            aff.add(base)
+    if aff and os.environ.get("SEED_FULL_SUITE") != "1":
+        e2["BASELINE_PKGS"] = " ".join(sorted(aff))
+        meta["confirmation"]["suite_scope"] = "packages whose files or transitive dependencies the patch touches: " + " ".join(sorted(aff))
     p = subprocess.run([os.path.join(ROOT, "tools", "baseline.py")], env=e2, capture_output=True, text=True)
     meta["confirmation"]["pinned_suite_with_change"] = p.stdout.strip().splitlines()[0] if p.stdout else "?"
+    if p.returncode != 0:
+        # tests that depend on timing fail now and then on a loaded machine: one more run decides
+        meta["confirmation"]["first_suite_run_not_passing"] = [l.strip() for l in p.stdout.splitlines() if "NOT PASSING" in l][:10]
+        p = subprocess.run([os.path.join(ROOT, "tools", "baseline.py")], env=e2, capture_output=True, text=True)
+        meta["confirmation"]["pinned_suite_with_change_second_run"] = p.stdout.strip().splitlines()[0] if p.stdout else "?"
     meta["confirmation"]["suite_ok"] = p.returncode == 0
     ok = rc0 == 0 and rc1 != 0 and p.returncode == 0 and meta["confirmation"]["builds"]
     meta["confirmed"] = ok
